@@ -317,7 +317,14 @@ class DisplayOracle:
         scr.low_water = scr.row
         top_before = scr.top
         clamps_before = scr.clamps
-        scr.feed(text)  # TermError propagates: a harness error, never a silent skip
+        try:
+            scr.feed(text)  # TermError (unsupported but well-formed) propagates: harness error
+        except term.TermMalformed as e:
+            # half an escape sequence / a stray ESC reached the terminal: the emitted characters
+            # do not mean a screen at all
+            self.violate("screen", "uninterpretable-output", "write #%d cannot be interpreted by a terminal: %s" % (self.writes, e))
+            self.stop_checks = True
+            return
         if scr.top != top_before:
             self.probe["scrolled"] += 1
         if self.viol is not None or self.stop_checks:
